@@ -237,6 +237,9 @@ func Run(c Config, main func()) (res Result) {
 	// state is (re)initialised, as it would be at process start
 	resetTasks()
 	taskPanic = ""
+	// (the default flag set and usage function belong to the host process between runs)
+	oldFlags, oldUsage := flag.CommandLine, flag.Usage
+	defer func() { flag.CommandLine, flag.Usage = oldFlags, oldUsage }()
 	resetFlags()
 	oldLocal := time.Local
 	time.Local = time.FixedZone(fmt.Sprintf("SIM%+d", c.TZOffsetMin), c.TZOffsetMin*60)
